@@ -5,7 +5,7 @@
    stepping; the other operations by the correspondence run (per-identity ledger on both sides). *)
 From Coq Require Import ZArith List Bool Lia.
 From MV Require Import Ast Eval Scalar Machine Model Policy.
-From MV.Proofs Require Import Arith Logic Prim View OpsLocal Guards Grow Drops DrainIt CapHistory Core Refine Life IntoIt Clone Append SplitOff DrainAbs IntoAbs.
+From MV.Proofs Require Import Arith Logic Prim View OpsLocal Guards Grow Drops DrainIt CapHistory Core Refine Life IntoIt Clone Append SplitOff DrainAbs IntoAbs Extend RetainSpec RetainAbs History LifeBulk.
 Import ListNotations.
 Open Scope Z_scope.
 
@@ -251,3 +251,16 @@ Theorem C02_into_iter_every_element_in_one_place :
   post (into_whole cfg v steps s) (fun r s' => r = fst (cursor l steps) /\ Q s') Q.
 Proof. exact into_abs. Qed.
 Print Assumptions C02_into_iter_every_element_in_one_place.
+
+(* the whole life of a vector with the closure-driven bulk operations: an empty vector, ANY history of
+   push / insert / pop / remove / swap_remove / truncate / capacity operations / retain(any predicate
+   script) / extend(any iterator script), every panic caught between the operations, then drop: every
+   element ever created has been handed out or destroyed -- nothing is lost -- and the name is gone *)
+Theorem C02_whole_life_with_retain_and_extend :
+  forall cfg ncap, cfg_ok cfg -> policy_ok ncap -> needs_drop cfg = true ->
+  forall v os s,
+  vec_sentinel s v -> all_settled s -> Forall hop_ok os ->
+  let Q := fun s' => all_settled s' /\ nth_error (vecs s') v = Some None in
+  post (life_bulk cfg ncap v os s) (fun _ s' => Q s') Q.
+Proof. exact whole_life_bulk_nothing_lost. Qed.
+Print Assumptions C02_whole_life_with_retain_and_extend.
